@@ -526,6 +526,7 @@ class TrainRun:
             e["script"] = scripts[i % len(scripts)]
             e["space_seed"] = e.get("space_seed", 0) + i
             e["name"] = f"env{i}"
+            e["gid_offset"] = 30000 * i  # disjoint observation-tag ranges per environment
             self.envs.append(SimEnv(**e))
         fns = [(lambda env=env: env) for env in self.envs]
         vec = gym.vector.SyncVectorEnv(fns, autoreset_mode=gym.vector.AutoresetMode.SAME_STEP)
